@@ -2,12 +2,12 @@ SPECIFICATION GSpecT
 CONSTANTS
   STALL = {}
   LateResponseOK = TRUE
-  NoTimeout = FALSE
+  NoTimeout = TRUE
   STALLOFF = {0}
   REQ = {1, 2}
   T = 100
-  ACCEPT = {0, 50, 100}
-  DELAY = {0, 50, 100, 150}
+  ACCEPT = {0, 50}
+  DELAY = {0, 150, 1000000000}
   EX = 0
   INST = {0, 1, 2}
   SIDE = {"buy", "sell"}
